@@ -292,3 +292,157 @@ Proof.
       { intros Hin. apply due_in in Hin. rewrite Hh1 in Hin. rewrite (q_new_mark _ Q1' _ _ Hin), eqb_refl in Ee. discriminate. }
       pose proof (F2 Hn) as F. unfold pi2 in F. pose proof (f_equal fst F) as Fa. pose proof (f_equal snd F) as Fb. cbn [fst snd] in Fa, Fb. split; assumption.
 Qed.
+
+(** ** the checker's per-context expectation over an end-block, in model terms *)
+Definition G (s s' : state) (id : ctxid) (x : context) : list cbev :=
+  if x_mod x then
+    (if x_brun x && eqb (get id (expmark s)) (Some (height s))
+     then [(0, id, x_batch x, n_outputs s id (x_batch x), if x_bthr x <=? n_outputs s id (x_batch x) then 1 else 0)] else [])
+    ++ (if x_state x =? 0 then
+          match get id (ctxs s') with
+          | Some x' => if x_state x' =? 1 then [(1, id, x_batch x', 0, 0)] else []
+          | None => []
+          end
+        else [])
+  else [].
+
+Lemma x_off_mod x : x_mod (x_off x) = x_mod x.
+Proof. unfold x_off. destruct (x_brun x); reflexivity. Qed.
+
+Lemma eb_log_ctx c s dt id x :
+  QInv s -> LInv false s -> BatchInv s -> get id (ctxs s) = Some x ->
+  Lg id (end_block c s dt) = Lg id s ++ G s (end_block c s dt) id x.
+Proof.
+  intros Hq Hl Hb Hg. destruct (eb_log c s dt id Hq Hl Hb) as (mid & lgm & P1 & P2).
+  set (s' := end_block c s dt) in *. clearbody s'. destruct (x_off_fields x) as (Ob & Os & _). pose proof (x_off_mod x) as Om.
+  (* the context after the expiry phase: gone, or the same up to the running flag *)
+  assert (M : lgm = Lg id s ++ (if x_mod x && (x_brun x && eqb (get id (expmark s)) (Some (height s)))
+                 then [(0, id, x_batch x, n_outputs s id (x_batch x), if x_bthr x <=? n_outputs s id (x_batch x) then 1 else 0)] else [])
+              /\ (fst (fst mid) = None \/ exists xm, fst (fst mid) = Some xm /\ x_mod xm = x_mod x /\ x_state xm = x_state x /\ x_batch xm = x_batch x)).
+  { destruct P1 as [(E1' & Q & ->)|(E1' & -> & ->)].
+    - split.
+      + unfold E1. rewrite Hg, E1', eqb_refl, andb_true_r. rewrite (andb_comm (x_mod x)). reflexivity.
+      + unfold loc, QE in Q. rewrite Hg in Q. destruct mid as [[cxm exm] nwm]. cbn [fst]. destruct Q as (_ & Q).
+        destruct (x_state x =? 2); [left; tauto|]. destruct (x_state x =? 0); [destruct (belowb x)|]; destruct Q as (-> & _);
+          try (left; reflexivity); right; exists (x_off x); repeat split; assumption.
+    - split.
+      + rewrite (proj2 (eqb_false_iff _ _) E1'), andb_false_r, andb_false_r, app_nil_r. reflexivity.
+      + right. exists x. unfold loc. cbn [fst]. repeat split; assumption || reflexivity. }
+  destruct M as (-> & M). unfold G.
+  assert (N : Lg id s' = (Lg id s ++ (if x_mod x && (x_brun x && eqb (get id (expmark s)) (Some (height s)))
+                 then [(0, id, x_batch x, n_outputs s id (x_batch x), if x_bthr x <=? n_outputs s id (x_batch x) then 1 else 0)] else []))
+              ++ (if x_mod x && (x_state x =? 0) then
+                    match get id (ctxs s') with Some x' => if x_state x' =? 1 then [(1, id, x_batch x', 0, 0)] else [] | None => [] end
+                  else [])).
+  { destruct P2 as [(_ & Q & ->)|(_ & Q & ->)].
+    - f_equal. destruct mid as [[cxm exm] nwm]. cbn [fst] in M |- *. unfold loc, QN in Q.
+      destruct M as [->|(xm & -> & Mm & Ms & Mb)].
+      + injection Q as Q _ _. rewrite Q. cbn [E2v]. destruct (x_mod x && (x_state x =? 0)); reflexivity.
+      + destruct Q as (_ & Q). rewrite Ms in Q. unfold E2v. rewrite Mm, Ms.
+        destruct (x_state x =? 0) eqn:Es.
+        * destruct Q as [(x' & -> & _ & Sx & _)|(-> & _)].
+          -- rewrite Sx. cbn [Z.eqb]. rewrite andb_false_r. destruct (x_mod x); reflexivity.
+          -- cbn [x_state cx_state x_batch cx_brun]. cbn [Z.eqb]. rewrite andb_true_r, Mb. reflexivity.
+        * destruct Q as (-> & _). rewrite andb_false_r. reflexivity.
+    - rewrite <- app_nil_r at 1. f_equal. pose proof (f_equal (fun t => fst (fst t)) Q) as Qc. unfold loc in Qc. cbn [fst] in Qc.
+      rewrite Qc. destruct M as [->|(xm & -> & Mm & Ms & Mb)]; [destruct (x_mod x && (x_state x =? 0)); reflexivity|].
+      destruct (x_mod x && (x_state x =? 0)) eqn:E; [|reflexivity]. apply andb_true_iff in E. destruct E as (_ & E). apply Z.eqb_eq in E.
+      rewrite Ms, E. reflexivity. }
+  rewrite N, <- app_assoc. f_equal. destruct (x_mod x); cbn [andb]; reflexivity.
+Qed.
+
+Lemma eb_log_none c s dt id :
+  QInv s -> LInv false s -> BatchInv s -> get id (ctxs s) = None -> Lg id (end_block c s dt) = Lg id s.
+Proof.
+  intros Hq Hl Hb Hg. destruct (eb_log c s dt id Hq Hl Hb) as (mid & lgm & P1 & P2).
+  set (s' := end_block c s dt) in *. clearbody s'.
+  assert (M : lgm = Lg id s /\ fst (fst mid) = None).
+  { destruct P1 as [(_ & Q & ->)|(_ & -> & ->)].
+    - unfold E1. rewrite Hg, app_nil_r. split; [reflexivity|]. destruct mid as [[cxm exm] nwm]. unfold loc, QE in Q. rewrite Hg in Q. injection Q as -> _ _. reflexivity.
+    - split; [reflexivity|]. unfold loc. cbn [fst]. exact Hg. }
+  destruct M as (-> & M). destruct P2 as [(_ & _ & ->)|(_ & _ & ->)]; [|reflexivity]. rewrite M. cbn [E2v]. apply app_nil_r.
+Qed.
+
+Lemma outputs_in_obs univ pc pn pb s id b : outputs_in (obs_of univ pc pn pb s) id b = n_outputs s id b.
+Proof.
+  unfold outputs_in, n_outputs. cbn [obs_of o_reqs]. f_equal. induction (reqs s) as [|[rid q] l IH]; simpl; [reflexivity|].
+  destruct rid as [[[i b0] hh] ii]. cbn [fst snd Check.rid_ctx rid_batch req_tuple r_resp].
+  destruct (eqb i id && (b0 =? b) && (q_resp q =? 2)); simpl; rewrite IH; reflexivity.
+Qed.
+
+Lemma count_one (k : ctxid) (ids : list ctxid) : NoDup ids -> In k ids ->
+  list_sum (map (fun id => if eqb k id then 1%nat else 0%nat) ids) = 1%nat.
+Proof.
+  induction ids as [|a ids IH]; simpl; intros Hnd Hin; [contradiction|]. inversion Hnd as [|? ? Hn Hnd']; subst.
+  destruct Hin as [->|Hin].
+  - rewrite eqb_refl. f_equal. clear IH Hnd Hnd'. induction ids as [|a ids IH]; simpl; [reflexivity|].
+    rewrite (proj2 (eqb_false_iff k a)) by (intros ->; apply Hn; left; reflexivity). apply IH. intros H; apply Hn; right; exact H.
+  - rewrite (proj2 (eqb_false_iff k a)) by (intros ->; exact (Hn Hin)). apply IH; assumption.
+Qed.
+
+Lemma list_sum_map_add {A} (f g : A -> nat) (l : list A) :
+  list_sum (map (fun x => (f x + g x)%nat) l) = (list_sum (map f l) + list_sum (map g l))%nat.
+Proof. induction l as [|a l IH]; simpl; [reflexivity|]. rewrite IH. lia. Qed.
+
+Lemma count_keys (l : list cbev) (ids : list ctxid) : NoDup ids -> (forall e, In e l -> In (cb_id e) ids) ->
+  length l = list_sum (map (fun id => length (filter (fun e => eqb (cb_id e) id) l)) ids).
+Proof.
+  intros Hnd. induction l as [|e l IH]; intros Hall.
+  - simpl. clear. induction ids as [|a ids IHi]; simpl; [reflexivity|exact IHi].
+  - simpl length. rewrite IH by (intros e0 H0; apply Hall; right; exact H0).
+    pose proof (count_one (cb_id e) ids Hnd (Hall e (or_introl eq_refl))) as C1.
+    assert (Er : list_sum (map (fun id => length (if eqb (cb_id e) id then e :: filter (fun e0 => eqb (cb_id e0) id) l else filter (fun e0 => eqb (cb_id e0) id) l)) ids)
+                 = S (list_sum (map (fun id => length (filter (fun e0 => eqb (cb_id e0) id) l)) ids))).
+    { rewrite (map_ext _ (fun id => ((if eqb (cb_id e) id then 1 else 0) + length (filter (fun e0 => eqb (cb_id e0) id) l))%nat)).
+      - rewrite list_sum_map_add, C1. reflexivity.
+      - intros id. destruct (eqb (cb_id e) id); reflexivity. }
+    symmetry. exact Er.
+
+Qed.
+
+Lemma flat_map_len {A B} (f : A -> list B) (l : list A) : length (flat_map f l) = list_sum (map (fun a => length (f a)) l).
+Proof. induction l as [|a l IH]; simpl; [reflexivity|]. rewrite app_length, IH. reflexivity. Qed.
+
+Lemma flat_map_map {A B C} (f : B -> list C) (g : A -> B) (l : list A) : flat_map f (map g l) = flat_map (fun a => f (g a)) l.
+Proof. induction l as [|a l IH]; simpl; [reflexivity|]. rewrite IH. reflexivity. Qed.
+
+Lemma expected_cb_end univ c s dt pc pn pb :
+  expected_cb (obs_of univ pc pn pb s) (EndBlock dt) (obs_step univ c s (EndBlock dt))
+  = flat_map (fun e => G s (apply c s (EndBlock dt)) (fst e) (snd e)) (ctxs s).
+Proof.
+  unfold expected_cb, obs_step. cbn [obs_of o_ctxs o_expmark o_height]. rewrite flat_map_map. apply flat_map_ext. intros [id x].
+  cbn [fst snd]. unfold G. cbn [ctx_tuple t_mod t_brun t_batch t_bthr t_state]. rewrite outputs_in_obs, (get_map_val ctx_tuple).
+  destruct (x_mod x); [|reflexivity]. f_equal. destruct (x_state x =? 0); [|reflexivity].
+  destruct (get id (ctxs (apply c s (EndBlock dt)))) as [x'|]; reflexivity.
+Qed.
+
+Lemma c08_cb_endblock univ c s dt pc pn pb :
+  0 <= dt -> QInv s -> LInv false s -> BatchInv s -> NoDup (keys (ctxs s)) ->
+  same_set (expected_cb (obs_of univ pc pn pb s) (EndBlock dt) (obs_step univ c s (EndBlock dt))) (o_cb (obs_step univ c s (EndBlock dt))) = true.
+Proof.
+  intros Hdt Hq Hl Hb Hk. rewrite expected_cb_end. unfold obs_step. cbn [obs_of o_cb].
+  assert (Es' : apply c s (EndBlock dt) = end_block c s dt).
+  { rewrite apply_endblock. destruct (0 <=? dt) eqn:Ed; [reflexivity|apply Z.leb_gt in Ed; lia]. }
+  pose proof (step_cb c s (EndBlock dt)) as Hcb. rewrite Es' in *. set (s' := end_block c s dt) in *.
+  set (D := skipn (length (cblog s)) (cblog s')) in *.
+  assert (Pid : forall id x, get id (ctxs s) = Some x -> filter (fun e => eqb (cb_id e) id) D = G s s' id x).
+  { intros id x Hg. pose proof (eb_log_ctx c s dt id x Hq Hl Hb Hg) as L. fold s' in L. unfold Lg in L. rewrite Hcb, filter_app in L.
+    exact (app_inv_head _ _ _ L). }
+  assert (Pno : forall id, get id (ctxs s) = None -> filter (fun e => eqb (cb_id e) id) D = []).
+  { intros id Hg. pose proof (eb_log_none c s dt id Hq Hl Hb Hg) as L. fold s' in L. unfold Lg in L. rewrite Hcb, filter_app in L.
+    rewrite <- (app_nil_r (filter _ (cblog s))) in L at 2. exact (app_inv_head _ _ _ L). }
+  clearbody s' D.
+  assert (Hin : forall e, In e D -> exists x, get (cb_id e) (ctxs s) = Some x /\ In e (G s s' (cb_id e) x)).
+  { intros e He. destruct (get (cb_id e) (ctxs s)) as [x|] eqn:Eg.
+    - exists x. split; [reflexivity|]. rewrite <- (Pid _ x Eg). apply filter_In. split; [exact He|apply eqb_refl].
+    - exfalso. assert (Hf : In e (filter (fun e0 => eqb (cb_id e0) (cb_id e)) D)) by (apply filter_In; split; [exact He|apply eqb_refl]).
+      rewrite (Pno _ Eg) in Hf. exact Hf. }
+  unfold same_set. apply andb_true_iff. split.
+  - apply Nat.eqb_eq. rewrite flat_map_len.
+    rewrite (count_keys D (keys (ctxs s)) Hk).
+    2: { intros e He. destruct (Hin e He) as (x & Hg & _). unfold keys. apply in_map_iff. exists (cb_id e, x). split; [reflexivity|apply get_In; exact Hg]. }
+    unfold keys. rewrite map_map. f_equal. apply map_ext_in. intros [id x] Hi. cbn [fst snd].
+    rewrite (Pid id x (In_get_NoDup id x (ctxs s) Hk Hi)). reflexivity.
+  - apply forallb_forall. intros e He. apply existsb_eqb_in. destruct (Hin e He) as (x & Hg & Hi).
+    apply in_flat_map. exists (cb_id e, x). split; [apply get_In; exact Hg|exact Hi].
+Qed.
